@@ -607,10 +607,9 @@ class NUMERIC(FieldType):
 
         # Column configuration
         if default is None:
-            if numtype is int:
-                default = typecode_max[self.sortable_typecode]
-            else:
-                default = NaN
+            # The column stores the sortable (integer) representation, for
+            # floats too
+            default = typecode_max[self.sortable_typecode]
         elif not self.is_valid(default):
             raise Exception("The default %r is not a valid number for this "
                             "field" % default)
